@@ -154,6 +154,10 @@ Definition obs_eqb (m o : obs) : bool :=
   Bool.eqb (ob_panic m) (ob_panic o) && Bool.eqb (ob_sorted m) (ob_sorted o)
   && snap_eqb (ob_snap m) (ob_snap o).
 
+(* case files write long arithmetic progressions (provider lists) as [nseq from count step] *)
+Definition nseq (from count step : N) : list N :=
+  map (fun i => from + step * N.of_nat i) (seq 0 (N.to_nat count)).
+
 (* One case of the main stream.  Result codes: 0 model = implementation and
    oracle true; 1 oracle true, model differs; 2 oracle false on the
    implementation's output; 9 input outside the model's domain. *)
